@@ -160,14 +160,13 @@ class PSDMatrix(object):
 
         """
 
-        # If the attribute value is not None, then simply return it.
-        # Otherwise, compute it and return it.
-        if self._value is None:
-            try:
-                self._value = np.array([[expression.eval() for expression in line]
-                                        for line in self.matrix_of_expressions])
-            except ValueError:
-                raise ValueError("The PEP must be solved to evaluate PSDMatrix!")
+        # Compute the value from the ones of the underlying expressions
+        # (which change at each solve: never reuse an old result).
+        try:
+            self._value = np.array([[expression.eval() for expression in line]
+                                    for line in self.matrix_of_expressions])
+        except ValueError:
+            raise ValueError("The PEP must be solved to evaluate PSDMatrix!")
 
         # Return the value
         return self._value
